@@ -51,6 +51,17 @@ type c20Person struct {
 	Extra   datamodel.Node
 }
 
+type c20Inf0 struct {
+	A string
+	N int64
+}
+type c20Inf1 struct{ B c20Inf0 }
+type c20Inf2 struct{ C []string }
+type c20Inf3 struct{ D float64 }
+type c20Inf4 struct{ E bool }
+type c20Inf5 struct{ F []float64 }
+type c20Inf6 struct{ G []bool }
+
 var c20TS = func() *schema.TypeSystem {
 	ts := schema.MustTypeSystem(
 		schema.SpawnString("String"), schema.SpawnInt("Int"), schema.SpawnAny("Any"),
@@ -196,16 +207,45 @@ func c20Work(s *c20Shared, workload string, iters int) string {
 			var buf bytes.Buffer
 			dagcbor.Encode(s.gen.(schema.TypedNode).Representation(), &buf)
 			put(hex.EncodeToString(buf.Bytes()))
-		case "infer": // bindings with an inferred schema (package-level type system in bindnode)
+		case "infer-same": // every goroutine binds the same Go type with an inferred schema (memoised under a mutex)
 			func() {
 				defer func() {
 					if r := recover(); r != nil {
 						put(fmt.Sprintf("panic %v", r))
 					}
 				}()
-				type inferMe struct{ A string }
-				n := bindnode.Wrap(&inferMe{A: "x"}, nil)
+				type inferMe struct {
+					A string
+					L []int64
+				}
+				n := bindnode.Wrap(&inferMe{A: "x", L: []int64{1}}, nil)
 				put(termOf(n))
+			}()
+		case "infer": // goroutines infer DIFFERENT Go types while nodes of already inferred types are being read:
+			// the inferred types live in one package-level type system, which reading a node consults without a lock
+			func() {
+				defer func() {
+					if r := recover(); r != nil {
+						put(fmt.Sprintf("panic %v", r))
+					}
+				}()
+				n0 := bindnode.Wrap(&c20Inf0{A: "x", N: 1}, nil)
+				put(termOf(n0))
+				switch it % 6 {
+				case 0:
+					put(termOf(bindnode.Wrap(&c20Inf1{B: c20Inf0{A: "y"}}, nil)))
+				case 1:
+					put(termOf(bindnode.Wrap(&c20Inf2{C: []string{"z"}}, nil)))
+				case 2:
+					put(termOf(bindnode.Wrap(&c20Inf3{D: 2.5}, nil)))
+				case 3:
+					put(termOf(bindnode.Wrap(&c20Inf4{E: true}, nil)))
+				case 4:
+					put(termOf(bindnode.Wrap(&c20Inf5{F: []float64{1}}, nil)))
+				case 5:
+					put(termOf(bindnode.Wrap(&c20Inf6{G: []bool{true}}, nil)))
+				}
+				put(termOf(n0))
 			}()
 		case "stream": // a stream-backed bytes node read from several goroutines: whole reads, length probes, positioned reads, subset matches
 			b, err := s.stream.AsBytes()
@@ -365,7 +405,7 @@ func runC20(c *core.Ctx) error {
 		return sigs, sample, digests, seq, nil
 	}
 	rounds := c.Pick(1, 12)
-	for _, workload := range []string{"nodes", "walk", "links", "bind", "gen", "stream"} {
+	for _, workload := range []string{"nodes", "walk", "links", "bind", "gen", "stream", "infer-same"} {
 		for round := 0; round < 2*rounds; round++ {
 			g := []int{8, 4, 16}[(round/2)%3]
 			procs := []int{8, 2, 16, 4}[(round/2)%4]
@@ -395,7 +435,7 @@ func runC20(c *core.Ctx) error {
 	}
 	// the two known-racy uses: witnesses
 	{
-		sigs, sample, digests, _, err := runOne("infer", 8, 8, 3, c.Seed)
+		sigs, sample, digests, _, err := runOne("infer", 8, 8, 12, c.Seed)
 		if err != nil && len(sigs) == 0 {
 			// a crash of the child (the duplicate-type panic is recovered inside the workload; an unrecovered fatal error is also a symptom)
 			sample = err.Error()
@@ -403,7 +443,7 @@ func runC20(c *core.Ctx) error {
 		panicked := false
 		_ = digests
 		racy := len(sigs) > 0 || strings.Contains(sample, "panic") || err != nil
-		c.KnownWitness("C20/bindnode-inferred-schema-writes-package-level-typesystem", racy || panicked, "8 goroutines calling bindnode.Wrap(&T{}, nil): "+truncateStr(strings.Join(sigs, ","), 200))
+		c.KnownWitness("C20/bindnode-inferred-schema-writes-package-level-typesystem", racy || panicked, "8 goroutines binding different Go types with inferred schemas while reading nodes of inferred types: "+truncateStr(strings.Join(sigs, ","), 200))
 		c.Count("c20.race infer", true)
 		c.Dist("workload:infer(known)")
 	}
